@@ -148,13 +148,15 @@ func c19Ops() []c19Op {
 		p.IntegrityAlgorithm.BuildTransform(3, 12, nil, nil, nil)
 		at2 := uint16(300)
 		p.IntegrityAlgorithm.BuildTransform(3, 2, &at2, nil, ca(univ.Pat(5, 12)))
+		at3, av3 := uint16(9), uint16(0)
+		p.IntegrityAlgorithm.BuildTransform(3, 5, &at3, &av3, nil) // a TV attribute whose value is 0
 		p.ExtendedSequenceNumbers.BuildTransform(5, 0, nil, nil, nil)
 		q := sa.Proposals.BuildProposal(2, 1, nil)
 		q.PseudorandomFunction.BuildTransform(2, 5, nil, nil, nil)
 		q.DiffieHellmanGroup.BuildTransform(4, 14, nil, nil, nil)
 	}), ref.Payload{T: ref.PSA, SA: []ref.Proposal{
 		{Num: 1, Proto: 3, SPI: univ.Pat(4, 11), Tr: []ref.Transform{{Type: 1, ID: 12, HasAttr: true, TV: true, AType: 14, AValue: 256}, {Type: 3, ID: 12},
-			{Type: 3, ID: 2, HasAttr: true, AType: 300, AVar: univ.Pat(5, 12)}, {Type: 5, ID: 0}}},
+			{Type: 3, ID: 2, HasAttr: true, AType: 300, AVar: univ.Pat(5, 12)}, {Type: 3, ID: 5, HasAttr: true, TV: true, AType: 9, AValue: 0}, {Type: 5, ID: 0}}},
 		{Num: 2, Proto: 1, Tr: []ref.Transform{{Type: 2, ID: 5}, {Type: 4, ID: 14}}}}})
 	add("BuildDeletePayload(esp,2)", ok(func(c *message.IKEPayloadContainer) {
 		c.BuildDeletePayload(3, 4, 2, cu([]uint32{0x01020304, 0xfffffffe}))
